@@ -316,6 +316,16 @@ Fixpoint py_val (v : pyval) : bool :=
   | _ => true
   end.
 
+(* wf_val is py_val minus the non-finite lexemes *)
+Fixpoint has_nonfinite (v : pyval) : bool :=
+  match v with
+  | PFloat lx => nonfinite_lex lx && negb (float_tok lx)
+  | PList l => existsb has_nonfinite l
+  | PDict kv => existsb (fun p => has_nonfinite (snd p)) kv
+  | _ => false
+  end.
+Definition finite_val (v : pyval) : bool := py_val v && negb (has_nonfinite v).
+
 Definition ascii_str (s : chars) : bool := forallb (fun c => code c <? 128) s.
 
 (* ---------- sexp codec:  n | (b t) | (i 12) | (f "1.5") | (s "x") | (l v...) | (d (k v)...) ---------- *)
